@@ -68,7 +68,7 @@ pub struct Cfg {
   pub ops: usize,
   pub seed: u64,
   pub kf: Vec<String>,
-  /// emphasis: "mix" | "close" | "async" | "batch" | "teardown"
+  /// emphasis: "mix" | "close" | "async" | "batch" | "teardown" | "parked"
   pub profile: String,
 }
 
@@ -89,6 +89,7 @@ struct St {
   len: usize,
   /// the estimate may be off (a polled future was cancelled): avoid blocking calls
   uncertain: bool,
+  parked: bool,
   max_futs: usize,
 }
 
@@ -155,7 +156,9 @@ pub fn run_program(cfg: &Cfg) {
     cap,
     len: 0,
     uncertain: false,
-    max_futs: 3 + (cfg.seed % 3) as usize,
+    parked: cfg.profile == "parked",
+    // profile "parked": more waiters than capacity pile up before anybody serves them
+    max_futs: if cfg.profile == "parked" { cap.max(1) + 2 + (cfg.seed % 2) as usize } else { 3 + (cfg.seed % 3) as usize },
   };
   hist::rec_new(fl.kind, cap, &[1], &[2], &cfg.flavour, &cfg.kf);
 
@@ -222,11 +225,11 @@ fn step(st: &mut St, cfg: &Cfg) {
   let roll = st.rng.random_range(0..100);
   // poll / drop pending futures with some priority so they do not pile up
   if !st.futs.is_empty() {
-    let w = if p == "async" { 45 } else { 30 };
+    let w = if p == "async" { 45 } else if p == "parked" { 10 } else { 30 };
     if roll < w || st.futs.len() >= st.max_futs {
       let woken: Vec<usize> = (0..st.futs.len()).filter(|&i| st.futs[i].wf.flag.load(Ordering::SeqCst)).collect();
       let i = if !woken.is_empty() && st.rng.random_bool(0.7) { *pick(&mut st.rng, &woken) } else { st.rng.random_range(0..st.futs.len()) };
-      if st.rng.random_range(0..100) < 22 {
+      if st.rng.random_range(0..100) < (if p == "parked" { 40 } else { 22 }) {
         cancel_fut(st, i);
       } else {
         poll_fut(st, i);
@@ -238,9 +241,18 @@ fn step(st: &mut St, cfg: &Cfg) {
   if alive.is_empty() {
     return;
   }
-  let i = *pick(&mut st.rng, &alive);
+  let mut i = *pick(&mut st.rng, &alive);
+  if p == "parked" && st.rng.random_bool(0.6) {
+    // one side is favoured per program, so that the other side's operations pile up as waiters
+    let want_tx = cfg.seed % 2 == 0;
+    let side: Vec<usize> = alive.iter().copied().filter(|&j| matches!(st.hs[j].hd, Some(Hd::Tx(_))) == want_tx).collect();
+    if !side.is_empty() {
+      i = *pick(&mut st.rng, &side);
+    }
+  }
   let life = match p {
     "close" | "teardown" => 14,
+    "parked" => 9,
     _ => 5,
   };
   let roll = st.rng.random_range(0..100);
@@ -296,7 +308,8 @@ fn lifecycle(st: &mut St, i: usize) {
   // cloning a handle that was itself closed is exercised, but rarely: it runs into the
   // known finding F24 (the clone revives a side that is gone) and ends the judged part
   let clone_ok = !st.hs[i].closed || st.rng.random_range(0..100) < 6;
-  if roll < 30 && info.clone && clone_ok && st.count(is_tx) < 3 && !(busy && info.fut_excl) {
+  let clone_w = if st.parked { 50 } else { 30 };
+  if roll < clone_w && info.clone && clone_ok && st.count(is_tx) < 3 && !(busy && info.fut_excl) {
     let d = match &st.hs[i].hd {
       Some(Hd::Tx(t)) => t.dup().map(Hd::Tx),
       Some(Hd::Rx(r)) => r.dup().map(Hd::Rx),
@@ -369,6 +382,9 @@ fn send_op(st: &mut St, i: usize, cfg: &Cfg) {
     // oneshot: send(self) is the only form
   } else if info.is_async {
     ops.push("f:send");
+    if cfg.profile == "parked" {
+      ops.extend(["f:send", "f:send"]);
+    }
     if info.batch {
       ops.push("f:send_batch");
       ops.push("f:send_batch_mut");
@@ -456,6 +472,9 @@ fn recv_op(st: &mut St, i: usize, cfg: &Cfg) {
   }
   if info.is_async {
     ops.push("f:recv");
+    if cfg.profile == "parked" {
+      ops.extend(["f:recv", "f:recv", "f:recv"]);
+    }
     if info.batch {
       ops.push("f:recv_batch");
       ops.push("f:recv_batch_mut");
